@@ -34,6 +34,15 @@ typedef LAFEM::SparseMatrixCSR<DT, IT> MatrixT;
 typedef Analytic::Common::SineBubbleFunction<ShapeT::dimension> FuncT;
 typedef Assembly::DomainAssembler<TrafoT> AsmT;
 
+// exposes the Task's compile-time flags as evaluated constants (the repo reads them through
+// `task->need_scatter`, a member access the fact extractor does not fold)
+template<typename Job_> void c17_flags()
+{
+  constexpr bool need_scatter = Job_::Task::need_scatter;
+  constexpr bool need_combine = Job_::Task::need_combine;
+  (void)need_scatter; (void)need_combine;
+}
+
 void c17_inst(AsmT& dom_asm, MatrixT& matrix, VectorT& vector, const SpaceT& space, const FuncT& func, const Geometry::MeshPart<MeshT>& part)
 {
   Assembly::Common::LaplaceOperator oper;
@@ -41,20 +50,25 @@ void c17_inst(AsmT& dom_asm, MatrixT& matrix, VectorT& vector, const SpaceT& spa
   // scatter, no combine
   Assembly::BilinearOperatorMatrixAssemblyJob1<Assembly::Common::LaplaceOperator, MatrixT, SpaceT> job_m(oper, matrix, space, cub, DT(1));
   dom_asm.assemble(job_m);
+  c17_flags<decltype(job_m)>();
   dom_asm.assemble_master(job_m);
   Assembly::ForceFunctionalAssemblyJob<FuncT, VectorT, SpaceT> job_f(func, vector, space, cub, DT(1));
   dom_asm.assemble(job_f);
+  c17_flags<decltype(job_f)>();
   dom_asm.assemble_master(job_f);
   // no scatter, combine
   Assembly::AnalyticFunctionIntegralJob<DT, FuncT, TrafoT, 1> job_a(func, dom_asm.get_trafo(), cub);
   dom_asm.assemble(job_a);
+  c17_flags<decltype(job_a)>();
   dom_asm.assemble_master(job_a);
   Assembly::ErrorFunctionIntegralJob<FuncT, VectorT, SpaceT, 1> job_e(func, vector, space, cub);
   dom_asm.assemble(job_e);
+  c17_flags<decltype(job_e)>();
   dom_asm.assemble_master(job_e);
   // scatter and combine
   Assembly::CellErrorFunctionIntegralJob<FuncT, VectorT, SpaceT, 0> job_c(func, vector, space, cub);
   dom_asm.assemble(job_c);
+  c17_flags<decltype(job_c)>();
   dom_asm.assemble_master(job_c);
   // set-up path
   dom_asm.set_threading_strategy(Assembly::ThreadingStrategy::layered);
